@@ -150,8 +150,21 @@ func c07OneLine(s string, n int) string {
 }
 
 func c07RunOne(bindir, dir string) string {
-	res := runMrp(bindir, dir, "ps", []string{"--strict=error"}, nil, 90*time.Second)
-	os.WriteFile(filepath.Join(dir, "ps.log"), []byte(res.Stdout), 0o644)
+	r := c07RunPs(bindir, dir, "ps")
+	if strings.HasPrefix(r, "FAIL run_") && !strings.Contains(r, "panic") {
+		// A type error does not depend on timing: a failure that a second
+		// run of the same program does not show is the machine's, not the
+		// program's (reported in the summary line, not as a violation).
+		if r2 := c07RunPs(bindir, dir, "ps2"); strings.HasPrefix(r2, "ok ") {
+			return r2 + " flaky=" + strings.Fields(r)[1]
+		}
+	}
+	return r
+}
+
+func c07RunPs(bindir, dir, psid string) string {
+	res := runMrp(bindir, dir, psid, []string{"--strict=error"}, nil, 90*time.Second)
+	os.WriteFile(filepath.Join(dir, psid+".log"), []byte(res.Stdout), 0o644)
 	src, _ := os.ReadFile(filepath.Join(dir, "pipeline.mro"))
 	_, _, ast, err := syntax.ParseSourceBytes(src, "pipeline.mro", nil, false)
 	if err != nil {
@@ -165,7 +178,7 @@ func c07RunOne(bindir, dir string) string {
 	}
 	// alarms of a completed run
 	var alarms []string
-	filepath.Walk(filepath.Join(dir, "ps"), func(p string, info os.FileInfo, err error) error {
+	filepath.Walk(filepath.Join(dir, psid), func(p string, info os.FileInfo, err error) error {
 		if err == nil && !info.IsDir() && info.Name() == "_alarm" {
 			b, _ := os.ReadFile(p)
 			alarms = append(alarms, c07OneLine(string(b), 200))
